@@ -4,6 +4,7 @@ CONSTANTS
   DepositBlocks = {1, 2}
   DepositStates = {"ok", "young", "swept", "conf5", "conferr", "missing", "other"}
   DepositLimits = {0, 1, 2}
+  DepositFilters = {"this", "all"}
   DepositFlags <- SweepFlags
   RedemptionHistories <- HistoriesQ
   RedemptionAges = {1, 3, 5, 8}
